@@ -81,3 +81,20 @@ func debugErr(rc *RunCtx, r *BuildRec) {
 		rc.Probe("err: " + trunc(numRe.ReplaceAllString(r.Res.Errors[0].Text, "N"), 90))
 	}
 }
+
+// debugDump prints an output file when VERIF_DEBUG is set (used while diagnosing).
+func debugDump(rec *BuildRec, p string) {
+	if !debugOn {
+		return
+	}
+	for _, f := range rec.Res.OutputFiles {
+		if f.Path == p {
+			fmt.Printf("----- %s -----\n%s\n-----\n", p, f.Contents)
+		}
+	}
+	for k, v := range rec.Before {
+		if strings.HasSuffix(k, ".json") || strings.HasSuffix(k, "m14/index.js") {
+			fmt.Printf("----- input %s -----\n%s\n", k, v)
+		}
+	}
+}
